@@ -11,6 +11,7 @@ import (
 	"go.lstv.dev/util/size"
 	"go.lstv.dev/util/uu"
 	"verif/mc"
+	"verif/oracle"
 )
 
 type arg struct {
@@ -95,9 +96,88 @@ func probe(a arg) (string, string) {
 	if !bytes.Equal(out, outCopy) || !bytes.Equal(base, baseCopy) {
 		return "result_aliases_shared_state", fmt.Sprintf("%s value#%d: an earlier result changed from %q to %q (base %q -> %q) after a later call", a.Type, a.Val, outCopy, out, baseCopy, base)
 	}
+	// the caller reuses its buffer (overwrites the whole backing array); formatting the same value again must not be affected
+	full := out[:cap(out)]
+	saved := append([]byte(nil), full...)
+	for i := range full {
+		full[i] = '~'
+	}
+	for i := range arr {
+		arr[i] = '~'
+	}
+	re, _ := format(a.Type, append([]byte(nil), prefix...), a.Val, a.Flags)
+	reOK := bytes.Equal(re, want)
+	reText := string(re)
+	copy(full, saved) // put the bytes back (replays must see the same state even if a broken tree kept a reference)
+	if !reOK {
+		return "affected_by_caller_reusing_its_buffer", fmt.Sprintf("%s value#%d flags=%#x: after the caller overwrote the buffer of an earlier call, formatting the same value gives %q want %q", a.Type, a.Val, a.Flags, reText, want)
+	}
 	again, _ := format(a.Type, nil, a.Val, a.Flags)
 	if !bytes.Equal(again, baseCopy) {
 		return "nondeterministic_output", fmt.Sprintf("%s value#%d flags=%#x: %q then %q", a.Type, a.Val, a.Flags, baseCopy, again)
+	}
+	return "", ""
+}
+
+// first use: the very first formatting of a value goes into the caller's buffer; the caller then reuses that buffer;
+// formatting the same value again must still give the right text (expected texts come from the reference models,
+// so that this phase performs the first formatting of these values in the process)
+type firstArg struct {
+	Type string `json:"type"`
+	K    int    `json:"k"`
+}
+
+var firstDates = [][3]int{{1987, 6, 5}, {2031, 11, 30}, {1, 2, 3}}
+var firstRomans = []uint64{1987, 3, 3998, 44, 2749, 12001}
+var firstSizes = []uint64{1987, 77 << 20, 1234567, 3 << 40}
+var firstIDs = [][2]uint64{{0x1111222233334444, 0x9555666677778888}, {0x0f0f0f0f0f0f4f0f, 0xb0f0f0f0f0f0f0f0}}
+
+func probeFirst(a firstArg) (string, string) {
+	var want string
+	var call func(buf []byte) []byte
+	switch a.Type {
+	case "date":
+		d := firstDates[a.K]
+		want = oracle.DateText(int64(d[0]), d[1], d[2], false)
+		call = func(buf []byte) []byte {
+			b, _ := date.DefaultFormatter(buf, date.New(d[0], date.Month(d[1]), d[2]), 0)
+			return b
+		}
+	case "roman":
+		want = oracle.RomanText(firstRomans[a.K], 0)
+		call = func(buf []byte) []byte {
+			b, _ := roman.DefaultFormatter(buf, roman.Number(firstRomans[a.K]), 0)
+			return b
+		}
+	case "size":
+		v, u := oracle.Shorten(firstSizes[a.K])
+		want = oracle.Decimal(v) + u
+		call = func(buf []byte) []byte { b, _ := size.DefaultFormatter(buf, size.Size(firstSizes[a.K]), 0); return b }
+	case "sem":
+		want = fmt.Sprintf("7.%d.1987-rc.%d+b", a.K, a.K)
+		v := sem.New(7, uint64(a.K), 1987, fmt.Sprintf("rc.%d", a.K), "b")
+		call = func(buf []byte) []byte { b, _ := sem.DefaultFormatter(buf, v, 0); return b }
+	default:
+		want = oracle.UUIDText(firstIDs[a.K][0], firstIDs[a.K][1])
+		id := uu.ID{Higher: firstIDs[a.K][0], Lower: firstIDs[a.K][1]}
+		call = func(buf []byte) []byte { b, _ := uu.DefaultFormatter(buf, id, 0); return b }
+	}
+	scratch := make([]byte, 0, 96)
+	first := call(scratch)
+	if string(first) != want {
+		return "wrong_text_in_first_use_sequence", fmt.Sprintf("%s: first formatting into a scratch buffer gives %q want %q", a.Type, first, want)
+	}
+	line := append(scratch[:0], "year: "...) // the caller reuses its scratch buffer
+	second := call(line)
+	if string(second) != "year: "+want {
+		return "wrong_text_in_first_use_sequence", fmt.Sprintf("%s: second formatting into the reused buffer gives %q want %q", a.Type, second, "year: "+want)
+	}
+	for i := range scratch[:cap(scratch)] {
+		scratch[:cap(scratch)][i] = '~'
+	}
+	third := call([]byte("AB"))
+	if string(third) != "AB"+want {
+		return "wrong_text_in_first_use_sequence", fmt.Sprintf("%s: formatting after the caller overwrote its scratch buffer gives %q want %q", a.Type, third, "AB"+want)
 	}
 	return "", ""
 }
@@ -129,6 +209,18 @@ func main() {
 		p := mc.NewProbe(r, "append", nil, probe)
 		pu := mc.NewProbe(r, "urn", nil, probeURN)
 		r.Assume("oracle: out == prefix ++ format(nil); the caller's backing array is snapshotted before the call and its prefix bytes compared after; the spare capacity region may be written")
+		pf := mc.NewProbe(r, "first_use", nil, probeFirst)
+		r.Phase("serial: first-use sequences (first formatting of a value into the caller's scratch buffer, buffer reused, buffer overwritten, formatted again) for values not formatted before in this process", "complete for the listed values", func() {
+			r.Serial(func(w *mc.W) {
+				for t, n := range map[string]int{"date": len(firstDates), "roman": len(firstRomans), "size": len(firstSizes), "sem": 3, "uu": len(firstIDs)} {
+					for k := 0; k < n; k++ {
+						w.Point()
+						w.NonTrivial()
+						pf.Do(w, firstArg{t, k})
+					}
+				}
+			})
+		})
 		var prefixes [][]byte
 		for b := 0; b < 256; b++ {
 			prefixes = append(prefixes, []byte{byte(b)})
